@@ -690,9 +690,16 @@ class MarkdownNormalizer(Renderer):
 
     def render_code_span(self, element: inline.CodeSpan) -> str:
         text = element.children
+        # The delimiter must differ in length from every backtick run inside the span,
+        # otherwise the span ends early when read back: use the shortest such run.
+        runs = {len(run) for run in re.findall(r"`+", text)}
+        n = 1
+        while n in runs:
+            n += 1
+        delim = "`" * n
         if text and (text[0] == "`" or text[-1] == "`"):
-            return f"`` {text} ``"
-        return f"`{element.children}`"
+            return f"{delim} {text} {delim}"
+        return f"{delim}{text}{delim}"
 
     # --- GFM Renderer Methods ---
 
